@@ -127,6 +127,12 @@ func (k Keeper) Open(ctx sdk.Context, msg *types.MsgOpen) (*types.MsgOpenRespons
 			return nil, errorsmod.Wrap(types.ErrPoolDoesNotExist, fmt.Sprintf("poolId: %d", poolId))
 		}
 
+		// the amm pool balances changed as well (collateral transferred in), re-read before handing it to the hooks
+		ammPool, err = k.GetAmmPool(ctx, poolId)
+		if err != nil {
+			return nil, errorsmod.Wrapf(err, "amm pool not found for pool %d", poolId)
+		}
+
 		err = k.hooks.AfterPerpetualPositionOpen(ctx, ammPool, pool, creator, params.EnableTakeProfitCustodyLiabilities)
 		if err != nil {
 			return nil, err
